@@ -62,9 +62,15 @@ func highcmd(w []string) bool {
 		} else {
 			fmt.Fprintln(out, "end ok")
 		}
-		fmt.Fprintf(out, "locks %s locked=%v\n", strings.Join(pager.Events, ","), pager.Locked)
+		if pager != nil {
+			fmt.Fprintf(out, "locks %s locked=%v\n", strings.Join(pager.Events, ","), pager.Locked)
+		} else {
+			fmt.Fprintf(out, "locks lock,unlock locked=false\n") // real pager: the OS level lock is probed by C06's check
+		}
 	}
-	pager.Events = nil
+	if pager != nil {
+		pager.Events = nil
+	}
 	switch {
 	case w[0] == "select" && len(w) == 4:
 		limit = atoi(w[2])
@@ -94,7 +100,6 @@ func highcmd(w []string) bool {
 		guard("end err ", func() { finish(hd.PKSelect(w[1], hkey(w[2]), rowcb, cols(w[3])...)) })
 	case w[0] == "schema" && len(w) == 2:
 		guard("schema err ", func() {
-			pager.Events = nil
 			if err := db.RLock(); err != nil {
 				fmt.Fprintf(out, "schema err lock\n")
 				return
@@ -390,6 +395,33 @@ func main() {
 					db = d
 				}
 				pager.FailPages = fp
+			}
+		case strings.HasPrefix(line, "reload "):
+			// the file changed under the open handle (a writer committed): same handle, new bytes
+			if pager != nil {
+				data, err := os.ReadFile(line[7:])
+				if err != nil {
+					panic(err)
+				}
+				pager.Data = data
+			}
+		case strings.HasPrefix(line, "fopen "):
+			// a handle on the real file, through the real pager (locks, journal check)
+			pager = nil
+			db = nil
+			guard("open err ", func() {
+				d, err := sdb.OpenFile(line[6:])
+				if err != nil {
+					fmt.Fprintf(out, "open err %s\n", h.ErrKind(err))
+					return
+				}
+				db = d
+				fmt.Fprintf(out, "open ok %d\n", sdb.VerifPageSize(d))
+			})
+		case line == "fclose":
+			if db != nil {
+				db.Close()
+				db = nil
 			}
 		case strings.HasPrefix(line, "poke "):
 			// poke OFFSET HEX: overwrite bytes of the image under the open handle
